@@ -162,6 +162,9 @@ func (ec *evalCtx) genHook(call *ast.CallExpr, fn *types.Func, recv Value, args 
 		if gi.props["C04"] {
 			ec.urlSinkObligation(call, scalar(args[0]))
 		}
+		if gi.props["C12"] {
+			ec.scriptBeforeUseObligation(call)
+		}
 	case "(" + modulePath + ".Component).Render":
 		if gi.props["C13"] {
 			ec.childrenObligation(call)
@@ -442,4 +445,35 @@ func (ec *evalCtx) urlSinkObligation(call *ast.CallExpr, arg *Term) {
 		}
 	}
 	ec.fc.oblige(ec.st, "sink", e.inL(arg, "DQ_ATTR_SAFE"), call.Pos(), "href/action value must be attribute-escaped")
+}
+
+// scriptBeforeUseObligation (C12): where the call of a script template is written
+// into an attribute, its function definition must already be registered as
+// emitted in this context (the generator hoists templ.RenderScriptItems in front
+// of the element).
+func (ec *evalCtx) scriptBeforeUseObligation(call *ast.CallExpr) {
+	sel, ok := ast.Unparen(call.Args[0]).(*ast.SelectorExpr)
+	if !ok || sel.Sel.Name != "Call" {
+		return
+	}
+	t := ec.info.TypeOf(sel.X)
+	if t == nil || types.TypeString(t, nil) != modulePath+".ComponentScript" {
+		return
+	}
+	sv, ok := ec.derefQuiet(ec.eval(sel.X)).(*StructV)
+	if !ok {
+		return
+	}
+	name, ok := sv.F["Name"].(*Term)
+	if !ok {
+		return
+	}
+	cvp := ec.e().renderCV(ec.st)
+	cvs := ec.st.heap[cvp.Obj].(*StructV)
+	ss, ok := cvs.F["ss"].(*MapV)
+	if !ok {
+		return
+	}
+	ec.fc.oblige(ec.st, "sink", Select(ss.Dom, Concat(Str("script_"), name)), call.Pos(),
+		"the script template "+exprText(sel.X)+" is called from an attribute: its definition must have been emitted (registered) before this point")
 }
